@@ -103,7 +103,8 @@ def _one(args):
     # "arrival": the first trading update is the very update in which the placements take effect
     arrival = len(args) > 4 and args[4] == "arrival"
     ticks = ([] if arrival else [[200, ["Q"]]]) + [[200, ev] for ev in trades]
-    acts = [["TX", [["P", dict(t)] for t in MENU], []]]
+    # one batch with an explicit execute() half-way: nothing reaches the matching engine twice
+    acts = [["TX", [["P", dict(t)] for t in MENU], [len(MENU) // 2]]]
     h = Hooks()
     w = simx.SimWorld(
         [(spec, ticks)],
